@@ -137,6 +137,40 @@ M._MODELS[id(_SELF)] = lambda I, a, k: a[0]
 
 # ------------------------------------------------------------------ external / native calls
 
+def m_enumerations_from_bit_mask(I, args, kw):
+    """kmip.core.enums.get_enumerations_from_bit_mask(enumeration, mask) with a symbolic mask:
+    `[x for x in enumeration if (x.value & mask) == x.value]` is kept as a list of symbolic length
+    whose members are exactly the members whose (single) bit is set in the mask.  Iterating it
+    visits one arbitrary such member (chosen concretely, one path per member).  Assumed contract,
+    cross-checked by the bounded unit `bitmask-members`."""
+    cls, mask = args[0], I.resolve_opt(args[1]) if len(args) > 1 else kw.get('mask')
+    if not isinstance(mask, SInt):
+        return NotImplemented
+    members = [m for m in cls if isinstance(m.value, int) and m.value > 0 and (m.value & (m.value - 1)) == 0]
+    if len(members) != len(list(cls)):
+        return NotImplemented
+    P = I.path
+    if not P.is_valid(mask.t >= 0):
+        if not P.branch(mask.t >= 0):
+            raise OutOfFragment("negative bit mask")
+    # the length is only bounded (0..#members): which members there are is fixed by the element
+    # constraint below; an exact popcount would put 20 div/mod terms into every later query
+    n = fresh("nbits")
+    P.assume(z3.And(n >= 0, n <= len(members)))
+    I.path.session.assumptions.add(
+        "enums.get_enumerations_from_bit_mask(E, mask) returns exactly the members of E whose bit is set "
+        "in mask (one-line comprehension; bounded cross-check `bitmask-members`)")
+
+    def factory(I2, tag):
+        k = I2.path.choose(len(members), "mask-member")
+        I2.path.assume((mask.t / members[k].value) % 2 == 1)
+        return members[k]
+    return _pyvc().SList("mask_members", n, factory)
+
+
+QUALNAME_MODELS = {'kmip.core.enums.get_enumerations_from_bit_mask': m_enumerations_from_bit_mask}
+M.QUALNAME_MODELS = QUALNAME_MODELS
+
 NORAISE = set()        # ids of natives known not to raise
 EXTERNAL_HOOK = [None]   # optional callback(I, f, args, kw) -> value or NotImplemented
 
@@ -194,7 +228,8 @@ def opaque_external(I, name, args, kw, may_raise=True, pykind='object'):
     taint = frozenset()
     for a in list(args) + list(kw.values()):
         taint |= taint_of(a)
-    I.path.event('external', name)
+    result = Opaque(pykind, name, taint)
+    I.path.event('external', name, tuple(args), dict(kw), result)
     I.path.session.assumptions.add("external call %s: result uninterpreted%s" % (
         name, ", may raise any Exception" if may_raise else ", assumed not to raise"))
     if may_raise:
@@ -203,7 +238,7 @@ def opaque_external(I, name, args, kw, may_raise=True, pykind='object'):
             e.fields['__unknown_subclass__'] = True
             e.fields['__origin__'] = name
             raise _pyvc().Raised(e)
-    return Opaque(pykind, name, taint)
+    return result
 
 
 def opaque_call(I, f, args, kw):
@@ -322,6 +357,10 @@ def _havoc_like(I, v, name, kind=None):
         return SDict(name, v.vkind, v.maker)
     if isinstance(v, SOpt):
         return SOpt(fresh(name + "_isnone", z3.BoolSort()), _havoc_like(I, v.v, name))
+    if v is None:
+        # a name bound to None before the loop and assigned inside it: after an arbitrary number
+        # of iterations it holds None or some value of unknown kind
+        return SOpt(fresh(name + "_isnone", z3.BoolSort()), Opaque('object', 'havoc_' + name))
     raise OutOfFragment("cannot havoc %s of kind %s (declare havoc kind in the loop spec)"
                         % (name, type(v).__name__))
 
@@ -423,6 +462,8 @@ def _check_frame(I, env, snap, allowed, qn, k):
             if f not in fields and o.meta.get('db') and \
                     o.meta.get('initial_columns', {}).get(f) is o.fields[f]:
                 continue      # a column value materialised by a read, not a write
+            if f not in fields and o.meta.get('lazy_created', {}).get(f) is o.fields[f]:
+                continue      # a lazily chosen input (e.g. the engine's protocol version) first read here
             if f not in fields and (oid, f) not in allowed_pairs:
                 I.path.fail("%s/loop.%d.frame" % (qn, k), "frame",
                             "loop body adds field %s.%s" % (o.cls.__name__, f))
